@@ -35,7 +35,7 @@ const OPS: [&str; 15] = [
 ];
 
 /// Records of a folder log in a form that travels in the child's spec.
-async fn folder_records_json(a: &sos_account::LocalAccount, f: &VaultId) -> Result<Vec<Value>, String> {
+pub(crate) async fn folder_records_json(a: &sos_account::LocalAccount, f: &VaultId) -> Result<Vec<Value>, String> {
     use futures::StreamExt;
     use sos_core::events::EventLog;
     use sos_sync::StorageEventLogs;
@@ -51,7 +51,7 @@ async fn folder_records_json(a: &sos_account::LocalAccount, f: &VaultId) -> Resu
     Ok(out)
 }
 
-fn records_from_json(v: &Value) -> Vec<sos_core::events::EventRecord> {
+pub(crate) fn records_from_json(v: &Value) -> Vec<sos_core::events::EventRecord> {
     v.as_array()
         .map(|a| {
             a.iter()
@@ -66,7 +66,7 @@ fn records_from_json(v: &Value) -> Vec<sos_core::events::EventRecord> {
         .unwrap_or_default()
 }
 
-fn head_proof_of(commits: &[[u8; 32]]) -> Option<sos_core::commit::CommitProof> {
+pub(crate) fn head_proof_of(commits: &[[u8; 32]]) -> Option<sos_core::commit::CommitProof> {
     let mut t = sos_core::commit::CommitTree::new();
     let mut l = commits.to_vec();
     t.append(&mut l);
